@@ -28,6 +28,7 @@
 #include <unifex/sequence.hpp>
 #include <unifex/then.hpp>
 #include <unifex/type_traits.hpp>
+#include <unifex/detail/verif_hooks.hpp>
 
 #include <atomic>
 #include <memory>
@@ -193,6 +194,7 @@ public:
 
   void request_stop() noexcept {
     end_of_scope();
+    UNIFEX_VERIF_YIELD("scope.v0_rs");
     stopSource_.request_stop();
   }
 
@@ -206,6 +208,7 @@ private:
   static std::size_t op_count(std::size_t state) noexcept { return state >> 1; }
 
   [[nodiscard]] bool try_record_start() noexcept {
+    UNIFEX_VERIF_YIELD("scope.v0_trs_load");
     auto opState = opState_.load(std::memory_order_relaxed);
 
     do {
@@ -214,6 +217,7 @@ private:
       }
 
       UNIFEX_ASSERT(opState + 2 > opState);
+      UNIFEX_VERIF_YIELD("scope.v0_trs_cas");
     } while (!opState_.compare_exchange_weak(
         opState, opState + 2, std::memory_order_relaxed));
 
@@ -221,6 +225,7 @@ private:
   }
 
   friend void record_done(async_scope* scope) noexcept {
+    UNIFEX_VERIF_YIELD("scope.v0_rd_fsub");
     auto oldState = scope->opState_.fetch_sub(2, std::memory_order_release);
 
     if (is_stopping(oldState) && op_count(oldState) == 1) {
@@ -231,6 +236,7 @@ private:
 
   void end_of_scope() noexcept {
     // stop adding work
+    UNIFEX_VERIF_YIELD("scope.v0_es_fand");
     auto oldState = opState_.fetch_and(~stoppedBit, std::memory_order_release);
 
     if (op_count(oldState) == 0) {
